@@ -194,7 +194,11 @@ impl Check for C16 {
         let n_base = roots.len();
         for k in 0..s.range(0, 2) {
             let src_d = if !env.defs.is_empty() && s.chance(1, 2) { env.get(s.below(env.defs.len())).clone() } else { roots[s.below(n_base)].1.clone() };
-            let m = crate::den::mutate_type(&src_d, s, &cfg, env.defs.len());
+            // half of the time the one edit is an optionality flip (the 32-bit hash must tell x?: T from x: T)
+            let m = match if s.chance(1, 2) { crate::den::toggle_some_optionality(&src_d, s) } else { None } {
+                Some(m) => m,
+                None => crate::den::mutate_type(&src_d, s, &cfg, env.defs.len()),
+            };
             roots.push((format!("M{}", k), m));
         }
         let (program, rendered) = render_program(&env, &roots, RenderCfg::all(), s, "");
